@@ -206,6 +206,28 @@ def _run_short(case, res):
         res["states"].append(key)
         if crosses:
             res["nontrivial"].append(key)
+    # point_within_gca on very short generic arcs (0.006 degrees = 0.7 km): points of a ten times finer lattice next to the arc, 1e-6 .. 3e-4 rad
+    # off its plane, are not on it (a plane test whose tolerance does not scale with the arc length would accept them)
+    if case["block"] == 1:
+        s0, t0 = SHORT_BASES[case["base"]]
+        hh = SHORT_H / 13
+        fine = [S.stereo(s0 + i * hh, t0 + j * hh + i * hh / 7) for i in range(4) for j in range(4)]
+        for i, j in itertools.permutations(range(len(fine)), 2):
+            a, b = fine[i], fine[j]
+            if S.angle_f(a, b) > 2.5e-4:
+                continue
+            tags = _tags(a, b)
+            qs = [(p, False, "off-circle") for k, p in enumerate(fine) if k not in (i, j) and S.plane_distance(p, a, b) >= MARGIN]
+            g = np.array([_f(a), _f(b)])
+            for p, want, where in qs:
+                res["evaluations"] += 1
+                try:
+                    got = bool(point_within_gca(_f(p), g))
+                except Exception as e:
+                    got = "raises:%s" % type(e).__name__
+                if got != want:
+                    V.append({"oracle": "point_within_gca", "sig": "c14:pwg:short:%s:%s:%s" % (where, "false-positive" if got is True else got, "+".join(tags) or "generic"), "msg": "short arc %s -> %s (%.2e rad), point %s at %.2e rad from its plane: returned %s, exact answer False" % (S.fl(a), S.fl(b), S.angle_f(a, b), S.fl(p), S.plane_distance(p, a, b), got), "focus": {"kind": "replay1", "fn": "pwg", "a": _rat(a), "b": _rat(b), "p": _rat(p), "want": False, "tier": tier, "short": True}})
+            res["transitions"] += 1
     # point_within_gca on short meridian arcs (radial lattice line), every block does its share of the rotations
     if case["block"] == 0:
         for i, j in itertools.permutations(range(len(rad)), 2):
